@@ -25,7 +25,7 @@ class Scenario:
         return b
 
 
-def execute(sc, fixed=None, log=None, fixed_sched=None):
+def execute(sc, fixed=None, log=None, fixed_sched=None, fixed_named=None):
     """compile + symbolically execute; returns (machine, module, timings).
     Multi-threaded scenarios are executed twice: a first run discovers the visible operations and ranks their key
     paths; the second run uses those ranks as constant positions so that window tests simplify."""
@@ -33,12 +33,12 @@ def execute(sc, fixed=None, log=None, fixed_sched=None):
     mod = ir.Module(txt)
     t0 = time.time()
     posmap = None
-    if sc.mt and (fixed or fixed_sched):
+    if sc.mt and (fixed or fixed_sched or fixed_named):
         # replay: positions must be the ones of the symbolic run, so redo its ranking first (deterministic)
         from . import mt
         m0, _, _ = execute(sc)
         posmap = m0.sched.posmap if m0.sched.posmap is not None else m0.sched.ranks
-        m = _execute1(sc, mod, fixed, dict(posmap), log, fixed_sched=fixed_sched, allow_missing=True)
+        m = _execute1(sc, mod, fixed, dict(posmap), log, fixed_sched=fixed_sched, allow_missing=True, fixed_named=fixed_named)
     elif sc.mt:
         from . import mt
         m = _execute1(sc, mod, fixed, None, None)
@@ -66,7 +66,7 @@ def execute(sc, fixed=None, log=None, fixed_sched=None):
     return m, mod, {'compile_s': ct, 'exec_s': time.time() - t0, 'ir_path': path}
 
 
-def _execute1(sc, mod, fixed, posmap, log, strict=False, fixed_sched=None, allow_missing=False):
+def _execute1(sc, mod, fixed, posmap, log, strict=False, fixed_sched=None, allow_missing=False, fixed_named=None):
     term.reset()
     m = Machine(mod, nthreads=max(1, sc.threads), unwind=sc.unwind, unwind_map=sc.unwind_map)
     m.uninit_zero = sc.uninit_zero
@@ -77,6 +77,7 @@ def _execute1(sc, mod, fixed, posmap, log, strict=False, fixed_sched=None, allow
         m.race = Race(m, sc.threads)
     m.posmap = posmap
     m.allow_missing = allow_missing
+    if fixed_named: m.fixed_named = dict(fixed_named)
     m.fixed_sched = fixed_sched if posmap is not None else None
     m.tolerant = bool(sc.mt and posmap is None and not strict)
     if fixed: m.fixed = dict(fixed)
